@@ -496,6 +496,7 @@ static void one_case(int isdec, char **argv)
     free(e.data);
 }
 
+static int tok_desc(const char *t);
 #include "ecdrive_wire.inc"
 #include "ecdrive_hist.inc"
 
